@@ -558,8 +558,8 @@ def check(run, replay):
         "globals between files); the order of evaluation inside a batch is free (E2Ecap_shuffle_independent)",
         "header line ASCII, names distinct, without commas / quotes / surrounding blanks; label among them; B >= 1, s >= 1",
         "the file is read as latin-1: text = list of byte values; no NUL, no field longer than csv.field_size_limit()",
-        "Constant without a tail batch ends in FileNotFoundError at os.remove('ranking_checkpoint_tmp.tsv') AFTER the outputs "
-        "were written (known observation of C08/C09, notes/E2E.md); the outputs written before are compared, the exception is counted",
+        "a run that ends in an exception is reported (props.e2e.known_constant_crash: the former Constant crash at "
+        "os.remove('ranking_checkpoint_tmp.tsv') was repaired in /repo 4add6a4 and is no longer accepted)",
         "tie-breaking among equally often evaluated candidates is FREE (property C07): any selection history accepted by C07's relation "
         "is admissible; histories that differ from the transcription Sampler.step are only counted (tie_breaking_differs_from_transcription)",
     ]
